@@ -10,9 +10,11 @@ NOT_APPLICABLE = {
 PENDING = "check not built yet in this round (planned, see DESIGN.md section 4); not claimed until it exists"
 
 ids = [json.loads(l)["id"] for l in open(os.path.join(HERE, "properties.jsonl"))]
+# only checks the coordinator has reviewed and run on the unchanged tree are registered
+READY = set(open(os.path.join(HERE, "ready.txt")).read().split())
 checks, na = [], []
 for pid in ids:
-    if os.path.exists(os.path.join(HERE, "props", pid + ".py")) and pid not in NOT_APPLICABLE:
+    if pid in READY and os.path.exists(os.path.join(HERE, "props", pid + ".py")) and pid not in NOT_APPLICABLE:
         m = importlib.import_module(pid)
         c = {
             "property_id": pid,
